@@ -91,11 +91,12 @@ class ArrCopy(Stmt):
 class MapAssign(Stmt):
     """for r in [lo,hi): cells[k][base_k + r] = rhs_k(r)   (unit stride, rhs may not read the written arrays at other rows)
     cells: list of (arr, ty, offset E) ; rhs: list of functions r(E)->E"""
-    def __init__(self, lo, hi, cells, rhs):
+    def __init__(self, lo, hi, cells, rhs, recurrence=False):
         self.lo = E.const(lo)
         self.hi = E.const(hi)
         self.cells = cells
         self.rhs = rhs
+        self.recurrence = recurrence    # rhs(r) may read the *new* contents at earlier rows (prefix sums)
 
 
 class CallContract(Stmt):
